@@ -266,7 +266,7 @@ func vtmpdir() string {
 	if vtmp == "" {
 		d, err := os.MkdirTemp("", "verif.native.")
 		if err != nil {
-			panic(err)
+			panic(vVectorError{"native fixture: " + err.Error()}) // an environment problem is not a finding
 		}
 		vtmp = d
 	}
@@ -274,7 +274,7 @@ func vtmpdir() string {
 }
 func vtouch(name string) {
 	if err := os.WriteFile(name, nil, 0o644); err != nil {
-		panic(err)
+		panic(vVectorError{"native fixture: " + err.Error()})
 	}
 }
 func vcleanup() {
